@@ -83,7 +83,7 @@ Section Iter.
         SOk (Some (LInternal node)) (liter_set it (pop_n (S (tz idx)) (lstack it)) idx)
     | (Packed _ vs as node) :: _ =>
         if (lfull_depth it + pd + 1 <? length (lstack it))%nat then SPanic POverflow else
-        let node_depth := (lfull_depth it + pd - length (lstack it) + 1)%nat in
+        let node_depth := (lfull_depth it + pd + 1 - length (lstack it))%nat in
         if Nat.eqb node_depth (llevel it) then liter_jump it node else
         let sub := lindex it mod pf in
         let idx := lindex it + 1 in
